@@ -57,7 +57,7 @@ class generic_class(Generic[my_t, T_co]):
 
 
 def public_function(import_: "generic_class[int, int]", pos_only=None, /, *, kw_only) -> None:
-    """Docstring with */ inside and "quotes"."""
+    """Docstring of the public function."""
 
 
 def no_annotations(a, b=1, c=-2, d="str", e=True, f=None):
